@@ -207,6 +207,8 @@ func c03Internal(rc *RunCtx, user *Actor, step int) {
 	name := fmt.Sprintf("s%d.int", step)
 	alsoLN := T.Chance("int.alsoLN", 1, 3)
 	mintFirst := T.Chance("int.mintfirst", 1, 3)
+	lnFail := !(alsoLN && mintFirst) && T.Chance("int.lnfail", 1, 3)
+	ambBefore := W.LN.Cfg.AmbiguousPct
 	rc.S.BeginEpisode()
 	rc.S.Go(name, W.Ext, true, func() {
 		a := NewActor(W, name)
@@ -226,7 +228,16 @@ func c03Internal(rc *RunCtx, user *Actor, step int) {
 		if ins == nil {
 			return
 		}
+		// sometimes the Lightning backend fails while the mint settles the pair: the melt is
+		// refused, so nothing was paid and the mint requests below must be refused too
+		if lnFail {
+			W.LN.Cfg.InvoiceErrPct, W.LN.Cfg.AmbiguousPct = 100, 100
+		}
 		r := a.Melt("A", lq.ID, ins)
+		if lnFail {
+			W.LN.Cfg.InvoiceErrPct, W.LN.Cfg.AmbiguousPct = 0, ambBefore
+			rc.S.Probe("c03_internal_backend_failure")
+		}
 		if r.OK() {
 			user.remove("A", ins)
 		}
